@@ -450,10 +450,12 @@ func (s *ShmSegment) ReadBatch(offset uint64, length int, schema *arrow.Schema) 
 	if s.closed.Load() {
 		return nil, ErrShmClosed
 	}
-	end := offset + uint64(length)
-	if end > uint64(s.size) {
-		return nil, fmt.Errorf("shm region out of bounds: %d..%d > %d", offset, end, s.size)
+	// Overflow-safe: a negative length or an offset near 2^64 must not wrap
+	// offset+length back below the segment size.
+	if length < 0 || offset > uint64(s.size) || uint64(length) > uint64(s.size)-offset {
+		return nil, fmt.Errorf("shm region out of bounds: offset %d length %d, segment size %d", offset, length, s.size)
 	}
+	end := offset + uint64(length)
 	// Copy region under the lock. The header allocator may run
 	// concurrently in another goroutine; reading the data region
 	// itself doesn't touch the allocator state but we want a stable
